@@ -76,7 +76,16 @@ pub fn run(cx: &mut Ctx) {
                     continue;
                 }
                 let mut rng = cx.rng.fork(idx);
-                let input = content(&mut rng, class, len);
+                // the input is a sub-slice starting at a varying offset 0..7 of its allocation: code that reads whole
+                // words must cope with any alignment of the caller's data
+                let off = (len + rep + class.len()) % 8;
+                let backing: Vec<u8> = {
+                    let mut b = vec![0x5Au8; off];
+                    b.extend_from_slice(&content(&mut rng, class, len));
+                    b
+                };
+                let input: &[u8] = &backing[off..];
+                cx.cover("input_alignment_mod8", &format!("{}", (input.as_ptr() as usize) % 8));
                 let kclass = *rng.pick(&["random", "random", "zeros", "ff"]);
                 let key64 = content(&mut rng, kclass, 64);
                 let key32: [u8; 32] = key64[..32].try_into().unwrap();
